@@ -115,6 +115,10 @@ Definition broker_ok (b : broker_fact) : bool :=
       else String.eqb (bf_fn b) "ccb.brokerReg.serve"
   end.
 
+(* a function that installs a cipher on a Stream, and whether it freezes the send / receive handshake digest *)
+Record key_installer := mk_ki { ki_fn : string; ki_send : bool; ki_recv : bool }.
+Definition installer_ok (k : key_installer) : bool := ki_send k && ki_recv k.
+
 (* steady state = after both handshake digests are finalised (SetSymmetricKey /
    FinalizeDigests): SWOnce and SPre* accesses cannot happen any more *)
 Definition steady_w (a : stream_acc) : bool := match sa_rw a with SW => true | _ => false end.
